@@ -12,7 +12,10 @@ os.environ.setdefault('PYTHONHASHSEED', '0')
 CHECKS = {
     'C01': 'checks_sem.check_c01',
     'C02': 'checks_sem.check_c02',
+    'C09': 'checks_load.check_c09',
     'C11': 'checks_sem.check_c11',
+    'C14': 'checks_load.check_c14',
+    'C15': 'checks_load.check_c15',
     'C03': 'checks_text.check_c03',
     'C04': 'checks_wire.check_c04',
     'C05': 'checks_wire.check_c05',
